@@ -37,6 +37,10 @@ CLAIMED = {
          "Model checking of an explicit TLA+ arithmetic specification: 33 437 (quick) / 240 811 (thorough) TLC-generated cases over word-boundary limb patterns and every shift amount are replayed on the real types, panics compared with the specification's overflow flag, plus 4 000 / 60 000 random events validated by TLC. This is the property least suited to the technique; it is used because the definitions are short and independently validated.",
          "Trusted: TLC, CommunityModules FoldLeft/Json/CSV, the byte<->limb decoding of the harness, the verif limb constructors. Exactness is relative to BitVec.tla, validated exhaustively at 6/8 bits only; 64-256-bit expectations use 8-bit limbs proven equal to BitVec at <= 16 bits. Division by zero, non-fitting narrowing casts and LeftShift64 with n > 64 are not asserted. One known finding (Uint128.Mul high x high, pinned test expects the wrapped value).",
          "DESIGN.md 5 C20"),
+ "C09": ("Explicit TLA+ reference definitions of LCS score / shortest alignment length (declarative and fold DP, checked equal by TLC) and of the one-difference test, plus an implementation-shaped banded anti-diagonal model that TLC checks against the bound contract for every pair, bound and stale-buffer content of a bounded space; TLC exports the allowed answer sets, which the harness replays on the real kernels (3 buffer states, both argument orders); TLC re-evaluates the reference on recorded calls with up to 500-base IUPAC sequences",
+         "Model checking (TLC) of the kernel contract on all ordered pairs over {a,c}<=6(8), {a,c,g,t}<=3(4), IUPAC<=1(2) x bounds -1..4(7), with every exported case replayed on the real code and 1.5k (10k) random calls validated by the trace specification.",
+         "TLC decides every verdict; the Go side only decodes inputs and tests set membership. The equal-length end-gap-free orientation is set-valued, and the third return value of FastLCSEGFScore is not judged.",
+         "DESIGN.md 5 C09"),
 }
 
 NOT_YET = "check not built yet in this round (planned, see DESIGN.md 10); not claimed"
